@@ -17,7 +17,7 @@ from fractions import Fraction
 import numpy as np
 
 from .common import Check, lean_stage, q, rel_close, run_driver
-from .c02 import inbox_labels, pdiff, sphere_radius
+from .c02 import MASK_OP_LIMIT, inbox_labels, pdiff, sphere_radius
 
 
 def place_droplets(rng, grid, k):
@@ -61,7 +61,7 @@ def place_droplets(rng, grid, k):
     return drops
 
 
-def cart_case(ck: Check, rng, reqs, expect):
+def cart_case(ck: Check, rng, reqs, expect, corner=False):
     from pde import CartesianGrid
     from droplets.emulsions import Emulsion
     from droplets.image_analysis import locate_droplets
@@ -71,8 +71,41 @@ def cart_case(ck: Check, rng, reqs, expect):
     h = [rng.choice([1.0, 0.5, 0.39, 1.5]) * rng.choice([1.0, 1.0, 1.3]) for _ in range(dim)]
     lo = [rng.choice([0.0, -3.7, 11.0]) for _ in range(dim)]
     per = [rng.random() < 0.6 for _ in range(dim)]
-    grid = CartesianGrid([[a, a + n * d] for a, n, d in zip(lo, shape, h)], shape, periodic=per)
-    drops = place_droplets(rng, grid, rng.choice([1, 1, 2, 3, 4]))
+    if corner and dim >= 2:
+        # a droplet around a CORNER of the box on a grid with unequal cell counts, at least two periodic axes: the pieces
+        # are merged through a chain of boundary pairs (three-piece configurations when the corner cell itself is not covered)
+        from droplets.droplets import SphericalDroplet
+
+        while len(set(shape)) < dim:
+            shape = [rng.randint(8, 24) if dim == 2 else rng.randint(7, 12) for _ in range(dim)]
+        per = [True] * dim
+        if dim == 3 and rng.random() < 0.5:
+            per[rng.randrange(3)] = False
+        grid = CartesianGrid([[a, a + n * d] for a, n, d in zip(lo, shape, h)], shape, periodic=per)
+        hmax = max(h)
+        drops = []
+        for _ in range(50):
+            R = rng.uniform(1.6, 3.0) * hmax
+            if any(2 * R + 2 * h[a] >= shape[a] * h[a] for a in range(dim)):
+                continue
+            c = []
+            for a in range(dim):
+                lo_a, hi_a = grid.axes_bounds[a]
+                if per[a]:
+                    off = rng.uniform(0.45, 1.0) * R * rng.choice([-1, 1])
+                    c.append(rng.choice([lo_a, hi_a]) + off)
+                else:
+                    c.append(rng.uniform(lo_a + R + h[a], hi_a - R - h[a]))
+            c = np.array(c)
+            dist = np.linalg.norm(pdiff(grid.cell_coords, c, grid), axis=-1)
+            if np.any(np.abs(dist - R) < 1e-6 * hmax) or not np.any(dist < R):
+                continue
+            drops = [SphericalDroplet(c, R)]
+            break
+        ck.count("cartesian.corner_droplet")
+    else:
+        grid = CartesianGrid([[a, a + n * d] for a, n, d in zip(lo, shape, h)], shape, periodic=per)
+        drops = place_droplets(rng, grid, rng.choice([1, 1, 2, 3, 4]))
     if not drops:
         return
     em = Emulsion(drops)
@@ -218,8 +251,8 @@ def lattice_offsets(ck: Check):
 def run_cases(ck: Check, n_cart: int, n_rad: int, n_cyl: int):
     rng = ck.rng
     reqs, expect = [], []
-    for _ in range(n_cart):
-        cart_case(ck, rng, reqs, expect)
+    for i in range(n_cart):
+        cart_case(ck, rng, reqs, expect, corner=(i % 4 == 3))
     for _ in range(n_rad):
         radial_case(ck, rng)
     for _ in range(n_cyl):
@@ -241,11 +274,19 @@ def run_cases(ck: Check, n_cart: int, n_rad: int, n_cyl: int):
         if bad:
             ck.mismatch("c01-pipeline", "model rendering failed", case)
             continue
-        lab = inbox_labels(mask)
-        reqs2.append(f"c02 merge {grid.dim} " + " ".join(map(str, grid.shape)) + " " + " ".join(str(int(p)) for p in grid.periodic) + " " + " ".join(map(str, lab.flat)))
+        head = f"{grid.dim} " + " ".join(map(str, grid.shape)) + " " + " ".join(str(int(p)) for p in grid.periodic) + " "
+        if mask.size <= MASK_OP_LIMIT:
+            # the whole model pipeline inside Lean: rendering -> verified labeller -> merge loop
+            reqs2.append("c02 mask " + head + " ".join(str(int(b)) for b in mask.flat))
+            ck.count("pipeline.model_labels_the_mask")
+        else:
+            lab = inbox_labels(mask)
+            reqs2.append("c02 merge " + head + " ".join(map(str, lab.flat)))
         expect2.append((case, grid, found))
     outs2 = run_driver(reqs2)
     for (case, grid, found), out in zip(expect2, outs2):
+        if out.startswith("ok") and "|" in out:
+            out = "ok " + out.split("|", 1)[1].strip()
         items = [x for x in out[2:].strip().split(";") if x] if out.startswith("ok") else None
         if items is None or len(items) != len(found):
             ck.mismatch("c01-pipeline", f"model pipeline finds {None if items is None else len(items)} droplets, implementation {len(found)}", case)
